@@ -91,18 +91,22 @@ def run(rep, work, tier, seed, only=None):
 def toric2d_tie(rep, work, recs):
     """Layer P tie: the parametric Toric2D model's tables equal the dumped ones on every grid size."""
     from common import coqc_many, eval_results, coq_Z
-    items = [r for r in recs if r['cls'] == 'Toric2DCode' and r['deformation'] is None]
+    items = [r for r in recs if r['cls'] in ('Toric2DCode', 'Planar2DCode', 'RotatedPlanar2DCode') and r['deformation'] is None]
     if not items:
         return
     pt = lambda c: '(%s, %s)' % (coq_Z(c[0]), coq_Z(c[1]))
     pl = lambda l: '[' + '; '.join(pt(c) for c in l) + ']'
-    lines = ['From Coq Require Import ZArith List Bool.\nImport ListNotations.\nFrom PQ Require Import Toric2D.\nLocal Open Scope Z_scope.\n']
+    lines = ['From Coq Require Import ZArith List Bool.\nImport ListNotations.\nFrom PQ Require Import Toric2D.\nFrom PQ Require Planar2D RotatedPlanar2D.\nLocal Open Scope Z_scope.\n']
     for r in items:
         sup = '[' + '; '.join(pl([it[1] for it in op]) for op in r['stab_ops']) + ']'
         lg = [pl([it[1] for it in op]) for op in r['lx_ops'] + r['lz_ops']]
-        lines.append('Eval vm_compute in table_matches %d %d %s %s %s && %s.\n' % (
-            r['size'][0], r['size'][1], pl(r['qubits']), pl(r['stab_coords']), sup,
-            ('logicals_match %d %d %s' % (r['size'][0], r['size'][1], ' '.join(lg))) if len(lg) == 4 else 'false'))
+        if r['cls'] == 'Toric2DCode':
+            lines.append('Eval vm_compute in table_matches %d %d %s %s %s && %s.\n' % (
+                r['size'][0], r['size'][1], pl(r['qubits']), pl(r['stab_coords']), sup,
+                ('logicals_match %d %d %s' % (r['size'][0], r['size'][1], ' '.join(lg))) if len(lg) == 4 else 'false'))
+        else:
+            lines.append('Eval vm_compute in ' + r['cls'][:-4] + '.table_matches %d %d %s %s %s.\n' % (
+                r['size'][0], r['size'][1], pl(r['qubits']), pl(r['stab_coords']), sup))
     f = os.path.join(work, 'c01_toric2d.v')
     open(f, 'w').write(''.join(lines))
     rc, o, e, dt = coqc_many([f])[f]
@@ -112,11 +116,11 @@ def toric2d_tie(rep, work, recs):
     for r, v in zip(items, vals):
         ok = v.startswith('true')
         rep.oblige(1, 1 if ok else 0)
-        rep.count('layerP:Toric2D')
+        rep.count('layerP:' + r['cls'])
         if not ok:
             key = cc.inst_key(r)
             rep.violation(dict(key, site='layer-P', clause='model-matches-implementation'),
-                          '%s: qubit coordinates / stabilizer coordinates / stabilizer supports differ from the parametric Toric2D model '
+                          '%s: qubit coordinates / stabilizer coordinates / stabilizer supports differ from the parametric Layer-P model '
                           '(the all-sizes commutation theorem no longer applies to the implementation)' % r['tag'],
                           {'instance': key, 'broken': 'Toric2D.table_matches'}, no_input=True)
 
